@@ -630,7 +630,20 @@ class Interp:
     def st_Try(self, node, st):
         if node.finalbody:
             raise Outside("try/finally", node)
-        outs = self.exec_block(node.body, st)
+        hnames = []
+        for h in node.handlers:
+            if h.type is None:
+                hnames.append("BaseException")
+            elif isinstance(h.type, ast.Tuple):
+                hnames.extend(self._exc_name(e, st) for e in h.type.elts)
+            else:
+                hnames.append(self._exc_name(h.type, st))
+        stack = self.ctx.__dict__.setdefault("try_handlers", [])
+        stack.append(hnames)
+        try:
+            outs = self.exec_block(node.body, st)
+        finally:
+            stack.pop()
         res = []
         for o in outs:
             if o.kind == "normal" and node.orelse:
